@@ -155,3 +155,212 @@ Example C12_ex_after_hrr :
                                 (mkHello 771 772 0 [1; 2; 3] 4865 1 23 0 false None []) [] None None true)
   = Abort a_illegal_parameter.
 Proof. vm_compute. split; reflexivity. Qed.
+
+(* ======================================================================================================
+   Composition with the marshal model (Model/WriteToUConn.v, Proofs/ComposeP.v, Proofs/ComposeW.v): the premise
+   [synced v w] of the theorems above, so far evaluated per run (CSync), is a THEOREM for the view that
+   UConn.ApplyConfig builds and the bytes MarshalClientHelloNoECH emits from the same header fields and
+   extension list.
+
+     s            the UConn before ApplyConfig: header fields WriteToUConn.us_hdr s, Config.MinVersion/MaxVersion,
+                  whatever earlier calls left in the Hello fields (ANY state)
+     es           uconn.Extensions (Model/Ext.v values), inside the precondition of C02 (ChMarshal.wf_specb: each
+                  type at most once, wire limits, RFC minimum sizes, pre_shared_key last)
+     apply_config UConn.ApplyConfig (clears ServerName / AlpnProtocols / SupportedCurves / KeyShares /
+                  certCompressionAlgs, folds writeToUConn over es, recomputes SupportedVersions when no
+                  SupportedVersionsExtension is present); finish load = + setPskToUConn when a session was loaded
+     view_of      the client_view of that state (what hooks/verif_c12.go reads)
+     wire_of raw  the wire_view of the marshalled bytes, through the strict parser of C02 (Model/Strict.v)
+   Remaining premises (each discussed in notes/Compose.md):
+     typed_ext    supported_groups, ALPN, compress_certificate, pre_shared_key, supported_versions and key_share
+                  are sent through their typed extension, not through a GenericExtension / UtlsGREASEExtension
+                  carrying the same extension_type (those have an empty writeToUConn)
+     memN 0 comp  the hello lists the null compression method (ApplyPreset always writes [0]: C03_compression_fixed)
+     psk_agree    len(Hello.PskIdentities) = number of identities the pre_shared_key extension serialises; NOT a
+                  consequence of ApplyConfig (C12_psk_agree_* give the two situations where it holds;
+                  C12_ex_fake_psk_view_smaller the one where it does not, in the harmless direction)
+   ====================================================================================================== *)
+From UV Require Model.Ext Model.Marshal Model.ChMarshal Model.WriteToUConn Proofs.ComposeP Proofs.ComposeW.
+
+Theorem C12_view_is_wire : forall env bbs padto s es raw s' load ecdhe mlkem sess,
+  ChMarshal.wf_specb (WriteToUConn.us_hdr s) es = true ->
+  forallb WriteToUConn.typed_ext es = true ->
+  ChMarshal.marshal_hello bbs padto (WriteToUConn.us_hdr s) es = Ok raw ->
+  WriteToUConn.apply_config env (ChMarshal.marshal_hello bbs padto (WriteToUConn.us_hdr s) es) s es = Ok s' ->
+  memN 0 (Marshal.h_comp (WriteToUConn.us_hdr s)) = true ->
+  WriteToUConn.psk_agree (WriteToUConn.finish load es s') es = true ->
+  exists w, WriteToUConn.wire_of raw = Some w
+            /\ synced (WriteToUConn.view_of (WriteToUConn.finish load es s') es ecdhe mlkem sess) w = true.
+Proof. exact ComposeP.compose_synced. Qed.
+Print Assumptions C12_view_is_wire.
+
+(* for every header and extension list: if the hello marshals to raw and the client completes against a flight at
+   TLS 1.3, the accepted suite was on the wire raw *)
+Theorem C12_suite_tls13_from_spec : forall env bbs padto s es raw s' load ecdhe mlkem sess,
+  ChMarshal.wf_specb (WriteToUConn.us_hdr s) es = true ->
+  forallb WriteToUConn.typed_ext es = true ->
+  ChMarshal.marshal_hello bbs padto (WriteToUConn.us_hdr s) es = Ok raw ->
+  WriteToUConn.apply_config env (ChMarshal.marshal_hello bbs padto (WriteToUConn.us_hdr s) es) s es = Ok s' ->
+  memN 0 (Marshal.h_comp (WriteToUConn.us_hdr s)) = true ->
+  WriteToUConn.psk_agree (WriteToUConn.finish load es s') es = true ->
+  forall e fl st,
+  client_run_gen e (WriteToUConn.view_of (WriteToUConn.finish load es s') es ecdhe mlkem sess) fl = Complete st ->
+  cs_vers st = V13 ->
+  exists w, WriteToUConn.wire_of raw = Some w /\
+    (cs_suite st = h_suite (f_sh fl) /\ In (cs_suite st) (w_suites w) /\ In (cs_suite st) tls13_suites
+     /\ (forall h, f_hrr fl = Some h -> h_suite h = cs_suite st)).
+Proof. exact ComposeP.c12_suite13. Qed.
+Print Assumptions C12_suite_tls13_from_spec.
+
+Theorem C12_suite_tls12_from_spec : forall env bbs padto s es raw s' load ecdhe mlkem sess,
+  ChMarshal.wf_specb (WriteToUConn.us_hdr s) es = true ->
+  forallb WriteToUConn.typed_ext es = true ->
+  ChMarshal.marshal_hello bbs padto (WriteToUConn.us_hdr s) es = Ok raw ->
+  WriteToUConn.apply_config env (ChMarshal.marshal_hello bbs padto (WriteToUConn.us_hdr s) es) s es = Ok s' ->
+  memN 0 (Marshal.h_comp (WriteToUConn.us_hdr s)) = true ->
+  WriteToUConn.psk_agree (WriteToUConn.finish load es s') es = true ->
+  forall e fl st,
+  client_run_gen e (WriteToUConn.view_of (WriteToUConn.finish load es s') es ecdhe mlkem sess) fl = Complete st ->
+  cs_vers st <> V13 ->
+  exists w, WriteToUConn.wire_of raw = Some w /\
+    (cs_suite st = h_suite (first_hello fl) /\ In (cs_suite st) (w_suites w) /\ In (cs_suite st) (e_impl12 e)).
+Proof. exact ComposeP.c12_suite12. Qed.
+Print Assumptions C12_suite_tls12_from_spec.
+
+Theorem C12_group_tls13_from_spec : forall env bbs padto s es raw s' load ecdhe mlkem sess,
+  ChMarshal.wf_specb (WriteToUConn.us_hdr s) es = true ->
+  forallb WriteToUConn.typed_ext es = true ->
+  ChMarshal.marshal_hello bbs padto (WriteToUConn.us_hdr s) es = Ok raw ->
+  WriteToUConn.apply_config env (ChMarshal.marshal_hello bbs padto (WriteToUConn.us_hdr s) es) s es = Ok s' ->
+  memN 0 (Marshal.h_comp (WriteToUConn.us_hdr s)) = true ->
+  WriteToUConn.psk_agree (WriteToUConn.finish load es s') es = true ->
+  forall e fl st,
+  client_run_gen e (WriteToUConn.view_of (WriteToUConn.finish load es s') es ecdhe mlkem sess) fl = Complete st ->
+  cs_vers st = V13 ->
+  exists w, WriteToUConn.wire_of raw = Some w /\
+    (cs_group st = h_share (f_sh fl)
+     /\ match f_hrr fl with
+        | None => In (cs_group st) (w_shares w)
+        | Some h => (h_selgroup h = 0 /\ In (cs_group st) (w_shares w))
+                    \/ (h_selgroup h <> 0 /\ cs_group st = h_selgroup h
+                        /\ In (cs_group st) (w_groups w) /\ ~ In (cs_group st) (w_shares w))
+        end).
+Proof. exact ComposeP.c12_group13. Qed.
+Print Assumptions C12_group_tls13_from_spec.
+
+Theorem C12_alpn_from_spec : forall env bbs padto s es raw s' load ecdhe mlkem sess,
+  ChMarshal.wf_specb (WriteToUConn.us_hdr s) es = true ->
+  forallb WriteToUConn.typed_ext es = true ->
+  ChMarshal.marshal_hello bbs padto (WriteToUConn.us_hdr s) es = Ok raw ->
+  WriteToUConn.apply_config env (ChMarshal.marshal_hello bbs padto (WriteToUConn.us_hdr s) es) s es = Ok s' ->
+  memN 0 (Marshal.h_comp (WriteToUConn.us_hdr s)) = true ->
+  WriteToUConn.psk_agree (WriteToUConn.finish load es s') es = true ->
+  forall e fl st,
+  client_run_gen e (WriteToUConn.view_of (WriteToUConn.finish load es s') es ecdhe mlkem sess) fl = Complete st ->
+  exists w, WriteToUConn.wire_of raw = Some w /\ (cs_alpn st = [] \/ In (cs_alpn st) (w_alpn w)).
+Proof. exact ComposeP.c12_alpn. Qed.
+Print Assumptions C12_alpn_from_spec.
+
+Theorem C12_psk_identity_from_spec : forall env bbs padto s es raw s' load ecdhe mlkem sess,
+  ChMarshal.wf_specb (WriteToUConn.us_hdr s) es = true ->
+  forallb WriteToUConn.typed_ext es = true ->
+  ChMarshal.marshal_hello bbs padto (WriteToUConn.us_hdr s) es = Ok raw ->
+  WriteToUConn.apply_config env (ChMarshal.marshal_hello bbs padto (WriteToUConn.us_hdr s) es) s es = Ok s' ->
+  memN 0 (Marshal.h_comp (WriteToUConn.us_hdr s)) = true ->
+  WriteToUConn.psk_agree (WriteToUConn.finish load es s') es = true ->
+  forall e fl st,
+  client_run_gen e (WriteToUConn.view_of (WriteToUConn.finish load es s') es ecdhe mlkem sess) fl = Complete st ->
+  cs_vers st = V13 ->
+  exists w, WriteToUConn.wire_of raw = Some w /\ (forall i, h_psk (f_sh fl) = Some i -> i < w_psk w).
+Proof. exact ComposeP.c12_psk. Qed.
+Print Assumptions C12_psk_identity_from_spec.
+
+Theorem C12_cert_compression_from_spec : forall env bbs padto s es raw s' load ecdhe mlkem sess,
+  ChMarshal.wf_specb (WriteToUConn.us_hdr s) es = true ->
+  forallb WriteToUConn.typed_ext es = true ->
+  ChMarshal.marshal_hello bbs padto (WriteToUConn.us_hdr s) es = Ok raw ->
+  WriteToUConn.apply_config env (ChMarshal.marshal_hello bbs padto (WriteToUConn.us_hdr s) es) s es = Ok s' ->
+  memN 0 (Marshal.h_comp (WriteToUConn.us_hdr s)) = true ->
+  WriteToUConn.psk_agree (WriteToUConn.finish load es s') es = true ->
+  forall e fl st,
+  client_run_gen e (WriteToUConn.view_of (WriteToUConn.finish load es s') es ecdhe mlkem sess) fl = Complete st ->
+  cs_vers st = V13 -> cs_psk st = false ->
+  exists w, WriteToUConn.wire_of raw = Some w /\ (forall a, f_ccert fl = Some a -> In a (w_ccalgs w)).
+Proof. exact ComposeP.c12_certcomp. Qed.
+Print Assumptions C12_cert_compression_from_spec.
+
+Theorem C12_session_id_echo_from_spec : forall env bbs padto s es raw s' load ecdhe mlkem sess,
+  ChMarshal.wf_specb (WriteToUConn.us_hdr s) es = true ->
+  forallb WriteToUConn.typed_ext es = true ->
+  ChMarshal.marshal_hello bbs padto (WriteToUConn.us_hdr s) es = Ok raw ->
+  WriteToUConn.apply_config env (ChMarshal.marshal_hello bbs padto (WriteToUConn.us_hdr s) es) s es = Ok s' ->
+  memN 0 (Marshal.h_comp (WriteToUConn.us_hdr s)) = true ->
+  WriteToUConn.psk_agree (WriteToUConn.finish load es s') es = true ->
+  forall e fl st,
+  client_run_gen e (WriteToUConn.view_of (WriteToUConn.finish load es s') es ecdhe mlkem sess) fl = Complete st ->
+  cs_vers st = V13 ->
+  exists w, WriteToUConn.wire_of raw = Some w /\
+    (h_sid (f_sh fl) = w_sid w /\ (forall h, f_hrr fl = Some h -> h_sid h = w_sid w)).
+Proof. exact ComposeP.c12_sessionid. Qed.
+Print Assumptions C12_session_id_echo_from_spec.
+
+Theorem C12_curve_tls12_from_spec : forall env bbs padto s es raw s' load ecdhe mlkem sess,
+  ChMarshal.wf_specb (WriteToUConn.us_hdr s) es = true ->
+  forallb WriteToUConn.typed_ext es = true ->
+  ChMarshal.marshal_hello bbs padto (WriteToUConn.us_hdr s) es = Ok raw ->
+  WriteToUConn.apply_config env (ChMarshal.marshal_hello bbs padto (WriteToUConn.us_hdr s) es) s es = Ok s' ->
+  memN 0 (Marshal.h_comp (WriteToUConn.us_hdr s)) = true ->
+  WriteToUConn.psk_agree (WriteToUConn.finish load es s') es = true ->
+  forall fl st c,
+  client_run (WriteToUConn.view_of (WriteToUConn.finish load es s') es ecdhe mlkem sess) fl = Complete st ->
+  cs_vers st <> V13 -> f_skx fl = Some c ->
+  exists w, WriteToUConn.wire_of raw = Some w /\ In c (w_groups w).
+Proof. exact ComposeP.c12_curve12. Qed.
+Print Assumptions C12_curve_tls12_from_spec.
+
+(* the pre_shared_key premise holds when no session is in play (fresh hello, no cached session, the extension - if any -
+   serialises nothing: UtlsPreSharedKeyExtension without session under OmitEmptyPsk) ... *)
+Theorem C12_psk_agree_no_session : forall env marsh s es s',
+  WriteToUConn.apply_config env marsh s es = Ok s' -> WriteToUConn.we_cache_session env = false ->
+  WriteToUConn.us_psk_ids s = [] -> WriteToUConn.psk_sent es = 0 ->
+  WriteToUConn.psk_agree (WriteToUConn.finish false es s') es = true.
+Proof. exact ComposeW.psk_agree_no_session. Qed.
+Print Assumptions C12_psk_agree_no_session.
+
+(* ... and when a session was loaded into an extension that serialises its identities (setPskToUConn) *)
+Theorem C12_psk_agree_loaded : forall es s e,
+  find ChMarshal.is_psk_ext es = Some e -> ExtSpec.ext_absent e = false ->
+  WriteToUConn.psk_agree (WriteToUConn.finish true es s) es = true.
+Proof. exact ComposeW.psk_agree_loaded. Qed.
+Print Assumptions C12_psk_agree_loaded.
+
+(* for a spec: the compression premise is discharged by ApplyPreset itself *)
+Theorem C12_view_is_wire_preset : forall sp c fr h es mn mx env bbs padto raw s' load ecdhe mlkem sess,
+  Preset.apply_preset sp c fr = Ok (h, es) ->
+  ChMarshal.wf_specb h es = true -> forallb WriteToUConn.typed_ext es = true ->
+  ChMarshal.marshal_hello bbs padto h es = Ok raw ->
+  WriteToUConn.apply_config env (ChMarshal.marshal_hello bbs padto h es) (ComposeW.preset_state h mn mx) es = Ok s' ->
+  WriteToUConn.psk_agree (WriteToUConn.finish load es s') es = true ->
+  exists w, WriteToUConn.wire_of raw = Some w
+            /\ synced (WriteToUConn.view_of (WriteToUConn.finish load es s') es ecdhe mlkem sess) w = true.
+Proof. exact ComposeW.synced_preset. Qed.
+Print Assumptions C12_view_is_wire_preset.
+
+(* ---- non-vacuity ---- *)
+(* Chrome_133 from the regenerated table with concrete randomness: ApplyPreset, marshal (1.7 kB with Boring padding and
+   GREASE ECH), ApplyConfig, strict parse: every premise above holds, view = wire, the client completes a TLS 1.3
+   handshake on X25519 / 0x1301 / h2 with a brotli-compressed certificate *)
+Example C12_ex_chrome133_composed : ComposeW.ex_chrome133 = true.
+Proof. vm_compute. reflexivity. Qed.
+
+(* FakePreSharedKeyExtension without a cached session: one identity on the wire, none in Hello.PskIdentities (observed on
+   the real code as well: notes/Compose.md). psk_agree is false; the client then refuses every selected identity. *)
+Example C12_ex_fake_psk_view_smaller :
+  let es := [Ext.EFakePreSharedKey true [([1; 2; 3], 7)] [repeat 0 32]] in
+  let h := {| Marshal.h_vers := 771; Marshal.h_random := repeat 1 32; Marshal.h_sid := []; Marshal.h_suites := [4865]; Marshal.h_comp := [0] |} in
+  let s := WriteToUConn.mkUS h [] false [] [] false [] false false [] false [771] [] [] [] [] false [] false [] [] 0 771 771 false in
+  match WriteToUConn.apply_config (WriteToUConn.mkEnvW false) (Ok []) s es with
+  | Ok s' => WriteToUConn.psk_agree s' es = false /\ WriteToUConn.us_psk_ids s' = [] /\ WriteToUConn.psk_sent es = 1
+  | _ => False
+  end.
+Proof. exact ComposeW.psk_disagree_fake. Qed.
